@@ -79,6 +79,13 @@ func parseFloat32(s []byte) float32 {
 //
 // For example, roundUpTo(0.0001, 100) -> 0.01.
 func roundUpTo(value float32, granularity float64) float32 {
+	// value is the float32 nearest to what was written.  Its representation
+	// error must not push an exact multiple (1.1 at 1/100) up to the next one.
+	if x := float64(value) * granularity; x != 0 {
+		if r := math.Round(x); math.Abs(x-r) <= math.Abs(x)/(1<<23) {
+			return float32(r / granularity)
+		}
+	}
 	if value > 0 {
 		return float32(math.Ceil(float64(value)*granularity) / granularity)
 	} else if value < 0 {
